@@ -67,10 +67,15 @@ package hybridbuffer
 
 // only names accepted by the output's chunk-ID matcher are recovered, never the .id file; recovered chunks are unloaded
 //@ func (op *chunkOperator) ScanExistingChunks() []base.LogChunk
+//@   property C03 C04 C19 C05
 //@   requires validop(op)
 //@   modifies mval[ref(op.metrics.ioErrorsTotal)], mem(string), op.maybeDir.*
 //@   ensures[only-matching-names] forall i int :: 0 <= i && i < len(result) ==> result[i].Saved && result[i].Data == nil && idmatch(ref(op.matchChunkID), key(result[i].ID)) && result[i].ID != ".id"
+//@   ensures[recovered-in-creation-order] forall i int, j int :: 0 <= i && i < j && j < len(result) ==> srank(result[i].ID) <= srank(result[j].ID)
 //@   loop 1: invariant -1 <= rangeindex && isfresh(chunkList) || len(chunkList) == 0
+//@   loop 1: invariant -1 <= rangeindex && rangeindex < len(fnames) && (forall i int, j int :: 0 <= i && i < j && j < len(fnames) ==> srank(fnames[i]) <= srank(fnames[j]))
+//@   loop 1: invariant (forall i int, j int :: 0 <= i && i < j && j < len(chunkList) ==> srank(chunkList[i].ID) <= srank(chunkList[j].ID))
+//@   loop 1: invariant forall i int, k int :: 0 <= i && i < len(chunkList) && rangeindex < k && k < len(fnames) ==> srank(chunkList[i].ID) <= srank(fnames[k])
 //@   loop 1: invariant forall i int :: 0 <= i && i < len(chunkList) ==> chunkList[i].Saved && chunkList[i].Data == nil && idmatch(ref(op.matchChunkID), key(chunkList[i].ID)) && chunkList[i].ID != ".id"
 
 // ==== chunkManager: the balance of C19 and the truth of its counters ===========================================================================
